@@ -61,6 +61,14 @@ CHECKS = {
          "columns, verif.data.Data and Metric.compute_single for all 8 bin types.",
     technique="TLA+ spec (Metrics.tla probabilistic part, Events.tla) model-checked with TLC; generated probability/quantile/ensemble/PIT cases replayed through files into verif.data + verif.metric",
     ref="6/C08"),
+ "C09": dict(
+    text="TextFormat.tla gives the text format as a relation Parse(file) = Input over literal files (header names as character sequences, "
+         "so that the p<t>/q<l>/e<k>/pit/elev classification is decided in the spec; tokens with their missing-value spellings; rows in "
+         "any order; metadata lines); TLC checks ColumnOrderInvariant / RowOrderInvariant / parse-of-generated = intended on every "
+         "generated file; each file is written literally (several separators, extra comment lines), read with verif.input.Text and all "
+         "attributes are compared by coordinates with Parse(file).",
+    technique="TLA+ spec (TextFormat.tla) model-checked with TLC; generated literal files read by verif.input.Text and compared with the spec's Parse",
+    ref="6/C09"),
  "C05": dict(
     text="Metrics.tla transcribes the textbook definition of 22 deterministic scores (and Aggregators.tla the 14 -agg statistics plus "
          "quantile levels) as expression trees over exact rationals, with explicit undefined cases; TLC enumerates every obs/fcst vector "
